@@ -859,6 +859,7 @@ def obligations(tier, seed):
     for clock in ("same", "ticking"):
         obs.append(ob(f"O3-rotation/{clock}", "xh", "rotation", {"k": 3 if tier == "quick" else 4, "clock": clock}, timeout=to * 4, group="O3-rotation", bounds="bucket of each record in {0,1,2}, pre-existing bit per target path"))
     obs.append(ob("S2-real-histories", "side", "real_histories", {}, timeout=300, group="S2-real"))
+    obs.append(ob("S3-real-split", "side", "real_split", {}, timeout=300, group="S3-real-split"))
     return obs
 
 
@@ -969,6 +970,19 @@ def real_histories():
     return {"ok": not bad, "detail": f"{n} histories on real files; " + "; ".join((other or k3)[:2]), "cex": {"kw": {"other": other[:5], "k3": k3[:3]}}}
 
 
+def real_split():
+    """real files: parts hold at most the limit, are readable on their own, concatenate record-wise AND as raw bytes to the input"""
+    probs = []
+    n = 0
+    for total, count, L in ((0, 2, 2), (1, 1, 1), (5, 2, 2), (6, 3, 1), (11, 1, 1), (23, 2, 1), (101, 1, 2)):
+        for fmt in ("{d}/out.records", "{d}/out.records.gz", "jsonfile://{d}/out.json"):
+            n += 1
+            p = _split_real(total, count, L, fmt)
+            if p:
+                probs.append(p)
+    return {"ok": not probs, "detail": f"{n} split runs on real files; " + "; ".join(probs[:2]), "cex": {"kw": {"problems": probs[:5]}}}
+
+
 def _split_real(n, count, L, uri_fmt):
     from flow.record import RecordDescriptor, RecordReader, RecordWriter
 
@@ -985,13 +999,40 @@ def _split_real(n, count, L, uri_fmt):
             p = os.path.join(d, f)
             if os.path.getsize(p) == 0:
                 continue
-            part = [r.n for r in RecordReader(p)]
+            try:
+                part = [r.n for r in RecordReader(p)]
+            except Exception as e:  # noqa: BLE001
+                if f.endswith(".gz"):
+                    import gzip
+
+                    if gzip.decompress(open(p, "rb").read()) == b"":
+                        continue  # a trailing part without records and without header: the known finding K3 (asserted in O2-empty)
+                return f"split n={n} count={count}: part {f} cannot be read on its own: {type(e).__name__}: {e}"
             if len(part) > count:
                 return f"split n={n} count={count}: part {f} holds {len(part)} records"
             got += part
         if sorted(got) != list(range(n)):
             missing = sorted(set(range(n)) - set(got))
             return f"split of {n} records with count={count}, suffix-length={L}: parts hold {len(got)} records, missing {missing[:6]} (files: {len(files)})"
+        # ... and as raw bytes: the parts' bytes, concatenated in order, read as exactly the sequence written (record streams only)
+        if "://" not in base and n:
+            import re as _re
+
+            def num(f):
+                m = _re.search(r"\.(\d+)\.", f) or _re.search(r"\.(\d+)$", f)
+                return int(m.group(1)) if m else -1
+
+            cat = os.path.join(d, "all" + (".records.gz" if base.endswith(".gz") else ".records"))
+            with open(cat, "wb") as out:
+                for f in sorted(files, key=num):
+                    out.write(open(os.path.join(d, f), "rb").read())
+            try:
+                items = list(RecordReader(cat))
+                whole = [getattr(r, "n", f"<non-record {r!r}>") for r in items]
+            except Exception as e:  # noqa: BLE001
+                return f"split of {n} records with count={count}: the raw-byte concatenation of the parts cannot be read: {type(e).__name__}: {e}"
+            if whole != list(range(n)):
+                return f"split of {n} records with count={count}: the raw-byte concatenation of the parts reads as {whole[:12]}, written 0..{n - 1}"
     return None
 
 
@@ -1052,6 +1093,9 @@ def replay(res):
             if probs:
                 break
         return {"reproduced": bool(probs), "key": "C17/split/" + (probs[0][:60] if probs else ""), "what": "; ".join(probs[:2])[:600]}
+    if "S3-real-split" in gid:
+        out = real_split()
+        return {"reproduced": not out["ok"], "key": "C17/split/real", "what": out["detail"][:600], "input": out["cex"]}
     if "O2-history" in gid or "O2-empty" in gid:
         adapter = a["adapter"]
         names = ["o0", "o1", "o2", "o3", "o4"] if "O2-history" in gid else ["o0", "o1", "o2"]
